@@ -396,6 +396,19 @@ EndClauses(c, e) ==
   \cup (IF "hostile" \in DOMAIN begin /\ c.realR THEN HostileClauses(c, begin, e, stats) ELSE {})
   \cup (IF "filtered" \in DOMAIN begin THEN FilteredClauses(c, begin, evs, stats) ELSE {})
   \cup (IF c.metaOnly /\ c.realR /\ "selected" \in DOMAIN begin /\ "listing" \in DOMAIN e THEN MetaClauses(c, begin, e, stats, view, notes) ELSE {})
+  \* conformance of the algorithm-layer model DiffMergeMC (pairs enumerated by TLC): the receiver notifies exactly the
+  \* (kind, path) changes the ALGORITHM model of the merge loop emits, each once.  Not a verdict of a property (prefix
+  \* MODEL): a disagreement without a violation makes the run inconclusive
+  \* (deletes BELOW a deleted path are left out on both sides: the destination walker runs concurrently with the writer and
+  \* may or may not still find the children of a directory that has just been removed - C05 permits either)
+  \cup (IF "diffModel" \in DOMAIN begin /\ bothOK
+        THEN LET real == {<<notes[k].kind, notes[k].p>> : k \in DOMAIN notes}
+                 mdl == {<<begin.diffModel[k].k, begin.diffModel[k].p>> : k \in DOMAIN begin.diffModel}
+                 Top(S) == {x \in S : ~(x[1] = "delete" /\ \E y \in S : y[1] = "delete" /\ Under(x[2], y[2]))}
+             IN Cl(Top(real) # Top(mdl) \/ ~(real \subseteq mdl)
+                   \/ \E k1, k2 \in DOMAIN notes : k1 # k2 /\ notes[k1].kind = notes[k2].kind /\ notes[k1].p = notes[k2].p,
+                   "MODEL.diffMergeChangesDiffer")
+        ELSE {})
   \cup Cl(c.retS = "none" \/ c.retR = "none", "C04.callDidNotReturn")
   \* the harness's own snapshot of an on-disk, unfiltered source: device numbers arrive as they are on disk (the view
   \* the STATs describe is the sender's reading of them)
